@@ -291,6 +291,7 @@ def main():
     ap.add_argument("--jobs", type=int, default=int(os.environ.get("VERIF_JOBS", "8")))
     ap.add_argument("--only", default=None, help="regex on harness names (debugging; no evidence written)")
     ap.add_argument("--no-replay", action="store_true")
+    ap.add_argument("--experimental", action="store_true", help="also run tier=experimental harnesses")
     args = ap.parse_args()
     prop = args.prop
     if prop not in registry.PROPS:
@@ -344,8 +345,12 @@ def main():
             tools["verus"] = r.get("version")
             continue
 
-        hs = [h for h in unit["harnesses"]
-              if (args.tier == "thorough" or h.get("tier", "quick") == "quick")]
+        # tier "experimental" = written but known not to discharge within any practical limit here
+        # (listed under not_decided); never run by the registered commands.
+        wanted = ("quick", "thorough") if args.tier == "thorough" else ("quick",)
+        if args.experimental:
+            wanted = wanted + ("experimental",)
+        hs = [h for h in unit["harnesses"] if h.get("tier", "quick") in wanted]
         if args.only:
             hs = [h for h in hs if re.search(args.only, h["name"])]
         if not hs:
